@@ -81,56 +81,67 @@ Print Assumptions C11_composition_is_conjunction.
 
 (* for every chain: what reaches the wire is the initial request plus a prefix of the
    targets; on refusal the refused target and everything after it receive nothing *)
-Theorem C11_refused_host_gets_nothing : forall ps init targets via strip,
-  exists k, map s_host (fst (follow ps init via strip targets)) = firstn k targets /\
-            (snd (follow ps init via strip targets) = Completed -> k = length targets) /\
-            (snd (follow ps init via strip targets) = Refused ->
+Theorem C11_refused_host_gets_nothing : forall ps init hs targets via strip,
+  exists k, map s_host (fst (follow ps init hs via strip targets)) = firstn k targets /\
+            (snd (follow ps init hs via strip targets) = Completed -> k = length targets) /\
+            (snd (follow ps init hs via strip targets) = Refused ->
                k < length targets /\
                all_permit ps (nth k targets []) (via ++ firstn k targets) = false).
 Proof. exact follow_hosts_prefix. Qed.
 Print Assumptions C11_refused_host_gets_nothing.
 
-Theorem C11_every_sent_hop_was_permitted : forall ps init targets via strip k,
-  k < length (fst (follow ps init via strip targets)) ->
+Theorem C11_every_sent_hop_was_permitted : forall ps init hs targets via strip k,
+  k < length (fst (follow ps init hs via strip targets)) ->
   all_permit ps (nth k targets []) (via ++ firstn k targets) = true.
 Proof. exact follow_all_permitted. Qed.
 Print Assumptions C11_every_sent_hop_was_permitted.
 
-Theorem C11_chain_bounded : forall ps init targets n,
+Theorem C11_chain_bounded : forall ps init hs targets n,
   In (PMax n) ps ->
-  (Z.of_nat (length (fst (run_chain ps init targets))) <= Z.max n 1)%Z.
+  (Z.of_nat (length (fst (run_chain ps init hs targets))) <= Z.max n 1)%Z.
 Proof. exact chain_bounded. Qed.
 Print Assumptions C11_chain_bounded.
 
-(* sensitive headers reach only hosts Go's cross-origin rule allows unless the caller asked
-   for AlwaysCopy of that header, and once stripped they stay stripped *)
-Theorem C11_authorization_only_where_allowed : forall ps init,
-  copies_auth ps = false ->
-  forall targets via strip s,
-  In s (fst (follow ps init via strip targets)) -> s_auth s <> 0 ->
+(* headers.  [hs] = the caller's headers on the first request (canonical name, number of values) -
+   ANY set of them; sensitive = net/http's list.  A sensitive header that no AlwaysCopy policy
+   names reaches only the initial host and hosts Go's cross-origin rule allows, and once the chain
+   has left them it stays stripped *)
+Theorem C11_sensitive_header_only_where_allowed : forall ps init hs n,
+  is_sensitive n = true -> mem_bytes n (always_names ps) = false ->
+  forall targets via strip s k,
+  In s (fst (follow ps init hs via strip targets)) -> In (n, k) (s_hdrs s) -> k <> 0 ->
   strip = false /\ (s_host s = init \/ should_copy init (s_host s) = true).
-Proof. exact follow_auth. Qed.
-Print Assumptions C11_authorization_only_where_allowed.
+Proof. exact follow_sensitive. Qed.
+Print Assumptions C11_sensitive_header_only_where_allowed.
 
-Theorem C11_cookie_only_where_allowed : forall ps init,
-  copies_cookie ps = false ->
+(* nothing is invented or multiplied on the way *)
+Theorem C11_headers_never_added_or_duplicated : forall ps init hs targets via strip s n k,
+  In s (fst (follow ps init hs via strip targets)) -> In (n, k) (s_hdrs s) ->
+  exists k0, In (n, k0) hs /\ (k = k0 \/ k = 0).
+Proof. exact follow_no_new_headers. Qed.
+Print Assumptions C11_headers_never_added_or_duplicated.
+
+(* every other header, and every header an AlwaysCopy policy names, reaches every followed hop *)
+Theorem C11_other_headers_always_carried : forall ps init hs n k,
+  is_sensitive n = false \/ mem_bytes n (always_names ps) = true ->
+  In (n, k) hs ->
   forall targets via strip s,
-  In s (fst (follow ps init via strip targets)) -> s_cookie s <> 0 ->
-  strip = false /\ (s_host s = init \/ should_copy init (s_host s) = true).
-Proof. exact follow_cookie. Qed.
-Print Assumptions C11_cookie_only_where_allowed.
+  In s (fst (follow ps init hs via strip targets)) -> In (n, k) (s_hdrs s).
+Proof. exact follow_carried. Qed.
+Print Assumptions C11_other_headers_always_carried.
 
-Theorem C11_headers_never_duplicated : forall ps init targets via strip s,
-  In s (fst (follow ps init via strip targets)) -> s_auth s <= 1 /\ s_cookie s <= 1.
-Proof. exact follow_no_duplicates. Qed.
-Print Assumptions C11_headers_never_duplicated.
+(* the sensitive set is the one in this toolchain's net/http (regenerated by gosync) *)
+Theorem C11_sensitive_set_is_gos :
+  go_sensitive_headers = [bs "Authorization"; bs "Www-Authenticate"; bs "Cookie"; bs "Cookie2"].
+Proof. exact sensitive_set. Qed.
+Print Assumptions C11_sensitive_set_is_gos.
 
 (* ---- whose policies: clients, SetRedirectPolicy, Clone (Model/RedirectClient.v) ---- *)
 
 (* a request through client c is decided by the policy list c holds, by nothing else *)
-Theorem C11_request_uses_own_policies : forall w c cfg init targets,
+Theorem C11_request_uses_own_policies : forall w c cfg init hs targets,
   nth_error w c = Some cfg ->
-  cstep w (ODo c init targets) = (w, Some (run_chain cfg init targets)).
+  cstep w (ODo c init hs targets) = (w, Some (run_chain cfg init hs targets)).
 Proof. exact cstep_do_own. Qed.
 Print Assumptions C11_request_uses_own_policies.
 
@@ -195,12 +206,12 @@ Print Assumptions C11_chain_state_independent_of_other_chains.
 
 (* ... and every chain the schedule lets run to its end ends exactly as run_chain says - the
    function all the chain theorems above are about *)
-Theorem C11_interleaved_chains_end_as_alone : forall ps sched chains i init targets,
-  nth_error chains i = Some (init, targets) ->
+Theorem C11_interleaved_chains_end_as_alone : forall ps sched chains i init hs targets,
+  nth_error chains i = Some (init, hs, targets) ->
   length targets < count_occ Nat.eq_dec sched i ->
   option_map chain_result
-    (nth_error (run_sched ps sched (map (fun c => chain_start (fst c) (snd c)) chains)) i) =
-  Some (fst (run_chain ps init targets), Some (snd (run_chain ps init targets))).
+    (nth_error (run_sched ps sched (map (fun c => chain_start (fst (fst c)) (snd (fst c)) (snd c)) chains)) i) =
+  Some (fst (run_chain ps init hs targets), Some (snd (run_chain ps init hs targets))).
 Proof. exact interleaved_chains_independent. Qed.
 Print Assumptions C11_interleaved_chains_end_as_alone.
 
@@ -245,9 +256,10 @@ Proof. vm_compute. repeat split. Qed.
 (* non-vacuity of the client theorems: A refuses redirects, B := A.Clone(), A is opened up;
    a request through B still stops at the first response, one through A follows *)
 Example C11_clients_nonvacuous :
+  let hs := [(bs "Authorization", 1); (bs "X-Token", 1)] in
   snd (crun [] [ONew; OSet 0 [PNo]; OClone 0; OSet 0 [PMax 5];
-                ODo 1 (bs "a.test") [bs "b.test"]; ODo 0 (bs "a.test") [bs "b.test"]]) =
-  [([{| s_host := bs "a.test"; s_auth := 1; s_cookie := 1 |}], Refused);
-   ([{| s_host := bs "a.test"; s_auth := 1; s_cookie := 1 |};
-     {| s_host := bs "b.test"; s_auth := 0; s_cookie := 0 |}], Completed)].
+                ODo 1 (bs "a.test") hs [bs "b.test"]; ODo 0 (bs "a.test") hs [bs "b.test"]]) =
+  [([{| s_host := bs "a.test"; s_hdrs := hs |}], Refused);
+   ([{| s_host := bs "a.test"; s_hdrs := hs |};
+     {| s_host := bs "b.test"; s_hdrs := [(bs "Authorization", 0); (bs "X-Token", 1)] |}], Completed)].
 Proof. vm_compute. reflexivity. Qed.
